@@ -514,6 +514,19 @@ pub fn gen_small(prop: &str, seed: u64, idx: u64) -> (StreamScenario, GenInfo) {
             default_write = *r.pick(&[WriteStep::All, WriteStep::Half, WriteStep::Accept(1000)]);
         }
     }
+    // C07 / C08: one scenario in ten also carries one or two transient read errors
+    // (the caller polls on; the reader hands out the same bytes): the matches / output
+    // must still be those of the fault-free run. (C18 enumerates faults itself.)
+    let mut faults = Vec::new();
+    if prop != "C18" && r.chance(1, 10) {
+        for _ in 0..r.range(1, 2) {
+            faults.push(Fault::Read {
+                call: r.below(12),
+                kind: *r.pick(&[ErrKind::Interrupted, ErrKind::WouldBlock, ErrKind::TimedOut, ErrKind::OsEagain]),
+                scribble: r.chance(1, 2),
+            });
+        }
+    }
     let infallible_ctor = opts.surface == Surface::Top && op == StreamOp::Find && r.chance(3, 10);
     let sc = StreamScenario {
         prop: prop.to_string(),
@@ -531,7 +544,7 @@ pub fn gen_small(prop: &str, seed: u64, idx: u64) -> (StreamScenario, GenInfo) {
         closure,
         writes,
         default_write,
-        faults: Vec::new(),
+        faults,
         infallible_ctor,
     };
     (sc, GenInfo { planted, class: "small" })
